@@ -1108,7 +1108,7 @@ def g_roundtrip(fmt, tier, seed):
 #   kern-export-interleaved-chord  save_kern loses notes when, at one time point, the notes of one (voice, staff) spine are
 #                           not consecutive in the order of the timeline (a chord with members on staff 1, 2, 1: the third
 #                           note OVERWRITES the token of the first one instead of joining it)
-FIXES_PENDING = ("kern-export-interleaved-chord",)  # (repaired in /repo: "kern-interp-line-inside-note" 7b7b2b6, "kern-more-spines-than-lines" d22454d, "kern-export-row-budget" 632abb0)
+FIXES_PENDING = ()  # (repaired in /repo: "kern-interp-line-inside-note" 7b7b2b6, "kern-more-spines-than-lines" d22454d, "kern-export-row-budget" 632abb0, "kern-export-interleaved-chord" 42c585a)
 KERN_EXPORT_MAX_CLEFS = 9  # while kern-export-row-budget is pending: parts with more Clef objects are left out of roundtrip-kern-staves
 
 
